@@ -246,3 +246,51 @@ func verifIntKeyed(v any) (map[int]any, bool) {
 	}
 	return res, true
 }
+
+// C06 (foreach instance): the loop step is closed (the run was cancelled) while items are still queued
+// behind the parallelism limit; the item runs in flight end as they like once their context is done. If
+// the step then still reports its success output, that output has one slot per item and slot k holds
+// nothing but the result of item k: results of items that never ran are not papered over.
+func VerifH_C06_foreach_cancel_queued() {
+	n := 2 + verifrt.Choice("extra", verifrt.Param("maxExtra", 2))
+	sub := &vSub{gate: make(chan struct{})}
+	h := newHandler()
+	h.schemas = verifSchemas(sub)
+	r, err := (&runnableStep{workflow: sub, logger: vLogger{}}).Start(nil, "loop", h)
+	verifrt.Assert(err == nil, "Start succeeds")
+	items := make([]any, n)
+	for i := range items {
+		items[i] = verifrt.NondetVal("item")
+	}
+	verifrt.Assert(r.ProvideStageInput("enabling", map[string]any{"enabled": nil}) == nil, "enabling input accepted")
+	verifrt.Assert(r.ProvideStageInput("execute", map[string]any{"items": items, "parallelism": int64(1)}) == nil, "execute input accepted")
+	if verifrt.Choice("settle", 2) == 1 {
+		verifrt.AwaitQuiescence() // one item run waits at the gate, the others are queued
+	}
+	_ = r.Close()
+	verifrt.Settle()
+	verifrt.Assert(sub.live == 0, "no item run is still in flight after Close")
+	verifrt.Assert(verifrt.LiveGoroutines() == 0, "no goroutine of the loop step survives Close")
+	c := h.completion()
+	if c == nil || c.out != "success" {
+		verifrt.Reach("no-success")
+		return
+	}
+	verifrt.Reach("success-after-close")
+	m, ok := c.data.(map[string]any)
+	verifrt.Assert(ok, "success output is an object")
+	lst, ok := m["data"].([]any)
+	verifrt.Assert(ok && len(lst) == n, "a success output reported after the close still has one slot per item")
+	for i := range lst {
+		if lst[i] == nil {
+			continue
+		}
+		found := false
+		for _, cl := range sub.calls {
+			if verifrt.Same(cl.item, items[i]) && cl.kind == 0 && lst[i] == any(cl.out) {
+				found = true
+			}
+		}
+		verifrt.Assert(found, "slot i of the success output holds the success output of the run of item i and nothing else")
+	}
+}
